@@ -107,13 +107,25 @@ Record params := mkParams {
   p_dpop_jkt : id;
   p_login_hint : string;
   p_notif_token : id;
-  p_user_code : string
+  p_user_code : string;
+  p_resources : list string  (* the `resource` parameters (RFC 8707); [] = absent (Go: nil) *)
 }.
 #[export] Instance eta_params : Settable _ := settable! mkParams
   <p_request_uri; p_redirect; p_resp_mode; p_resp_type; p_scopes; p_state; p_nonce; p_challenge;
-   p_method; p_dpop_jkt; p_login_hint; p_notif_token; p_user_code>.
+   p_method; p_dpop_jkt; p_login_hint; p_notif_token; p_user_code; p_resources>.
 Definition empty_params : params :=
-  mkParams 0%N "" "" "" "" "" "" PkEmpty "" 0%N "" 0%N "".
+  mkParams 0%N "" "" "" "" "" "" PkEmpty "" 0%N "" 0%N "" [].
+
+(* goidc.Resources.  A nil slice and an empty one are the same value here: form parsing yields nil or
+   a non-empty slice, `omitempty` drops empty ones, and the scripted embedder passes nil for "none". *)
+Definition no_res (l : list string) : bool := match l with [] => true | _ => false end.
+(* cmp.Equal on two Resources values *)
+Fixpoint res_eqb (a b : list string) : bool :=
+  match a, b with
+  | [], [] => true
+  | x :: a', y :: b' => andb (seqb x y) (res_eqb a' b')
+  | _, _ => false
+  end.
 
 Record asession := mkASession {
   a_id : id;
@@ -129,11 +141,12 @@ Record asession := mkASession {
   a_expires : Z;
   a_steps : N;              (* what the scripted policy keeps in session.Storage *)
   a_nonce_claim : string;   (* AdditionalIDTokenClaims["nonce"] *)
-  a_params : params
+  a_params : params;
+  a_granted_res : list string   (* GrantedResources *)
 }.
 #[export] Instance eta_asession : Settable _ := settable! mkASession
   <a_id; a_client; a_subject; a_par; a_cb; a_ciba; a_code; a_granted; a_jkt; a_x5t; a_expires;
-   a_steps; a_nonce_claim; a_params>.
+   a_steps; a_nonce_claim; a_params; a_granted_res>.
 
 Record gsession := mkGSession {
   g_id : id;
@@ -148,11 +161,13 @@ Record gsession := mkGSession {
   g_active : string;        (* ActiveScopes *)
   g_granted : string;       (* GrantedScopes *)
   g_jkt : id;
-  g_x5t : id
+  g_x5t : id;
+  g_active_res : list string;   (* ActiveResources: the `aud` of the current access token *)
+  g_granted_res : list string   (* GrantedResources *)
 }.
 #[export] Instance eta_gsession : Settable _ := settable! mkGSession
   <g_id; g_token; g_refresh; g_last_exp; g_expires; g_code; g_type; g_subject; g_client;
-   g_active; g_granted; g_jkt; g_x5t>.
+   g_active; g_granted; g_jkt; g_x5t; g_active_res; g_granted_res>.
 
 (* The configuration: the fields of oidc.Configuration the modelled handlers read. *)
 Record config := mkConfig {
@@ -197,7 +212,9 @@ Record config := mkConfig {
   cf_resource_required : bool;
   cf_issuer_param : bool;
   cf_jwt_bearer_authn_required : bool;
-  cf_prefix : string
+  cf_prefix : string;
+  cf_resource_enabled : bool;       (* ResourceIndicatorsIsEnabled *)
+  cf_resources : list string        (* Resources: the resource servers the provider knows *)
 }.
 #[export] Instance eta_config : Settable _ := settable! mkConfig
   <cf_profile; cf_grants; cf_scopes; cf_resp_types; cf_resp_modes; cf_openid_required;
@@ -208,7 +225,8 @@ Record config := mkConfig {
    cf_ciba_enabled; cf_ciba_lifetime; cf_ciba_user_code; cf_ciba_jar_enabled; cf_ciba_jar_required;
    cf_dpop_enabled; cf_dpop_required; cf_mtls_enabled; cf_tls_binding_enabled; cf_tls_binding_required;
    cf_binding_required; cf_introspection; cf_revocation; cf_dcr; cf_dcr_rotation;
-   cf_resource_required; cf_issuer_param; cf_jwt_bearer_authn_required; cf_prefix>.
+   cf_resource_required; cf_issuer_param; cf_jwt_bearer_authn_required; cf_prefix;
+   cf_resource_enabled; cf_resources>.
 
 (* ResponseType.Contains / IsImplicit; ResponseMode predicates *)
 Definition rt_contains (rt part : string) : bool := mem part (split_sp rt).
